@@ -687,6 +687,10 @@ package ring
 //@   assigns polOut
 //@   ensures mexp(polOut) == old(mexp(polIn)) && dom(polOut) == 1
 
+//@ afunc Ring.NewPoly
+//@   trusted abstract level: a new polynomial with one row per modulus of the ring's level (rows: see NewPoly#rows)
+//@   ensures len(result.Coeffs) == r.level + 1
+
 //@ afunc Poly.Zero
 //@   trusted ring-element view: every coefficient is set to 0
 //@   assigns pol
